@@ -245,6 +245,42 @@ def run(ctx):
                     res.find(key, w.loc(), "%s is printed with format_complex, which can produce %s, but its position is parsed with parse_immediate_value (an unsigned single-part literal)" % (tname.replace("quil_rs::", ""), what), wit)
     else:
         res.missing_anchor("format_complex / parse_immediate_value")
+    # R6 (K8) an expression printed directly after a whitespace-separated list of qubits, with only optional lists in
+    #    between, is read back as further qubits unless it is grouped: parsers of the shape
+    #    many0(parse_qubit) many0(..)* parse_expression need a writer that parenthesises the expression (at least when the
+    #    optional lists are empty)
+    try:
+        syn = ctx.syn()
+        from qv.synq import find_all as _fa, src as _src
+        from qv.props.c03 import emissions as _em
+        for pf in syn.fns:
+            if "parser/" not in pf["file"]:
+                continue
+            calls = [(_n["ln"], _n.get("col", 0), _src(_n)) for _n in _fa(pf["body"], lambda n: n.get("k") == "call")]
+            calls.sort()
+            seq = [c_[2] for c_ in calls]
+            qi = [k_ for k_, c_ in enumerate(seq) if c_.startswith("many0(parse_qubit)")]
+            ei_ = [k_ for k_, c_ in enumerate(seq) if c_.startswith("parse_expression(")]
+            if not qi or not ei_ or ei_[0] < qi[0]:
+                continue
+            between = [c_ for c_ in seq[qi[0] + 1:ei_[0]] if not c_.startswith("many0(") and not c_.startswith("String(")]
+            if between:
+                continue  # a mandatory token separates the list from the expression
+            # the type built by this parser
+            built = [_src(n_) for n_ in _fa(pf["body"], lambda n: n.get("k") == "struct" and isinstance(n.get("path"), str))]
+            for ty in sorted({b_.split(" ")[0].rsplit("::", 1)[-1] for b_ in built}):
+                ws = [f_ for f_ in syn.fns if f_["name"] == "write" and f_.get("impl_self") == ty and str(f_.get("impl_trait", "")).endswith("Quil")]
+                if len(ws) != 1:
+                    continue
+                em = _em(ws[0]["body"])
+                grouped = ("lit", "(") in em or any(e_[0] == "lit" and e_[1].endswith("(") for e_ in em)
+                key = "K8|ungrouped-expression-after-qubit-list|%s" % ty
+                res.site(key, True, {"parser": pf["name"], "writer_groups_the_expression": grouped, "verdict": "ok" if grouped else "VIOLATION"})
+                if not grouped:
+                    res.find(key, "%s:%d" % (ws[0]["file"], ws[0]["ln"]), "%s parses `qubit* (optional lists) expression` with nothing mandatory between the qubits and the expression, and the %s writer prints the expression ungrouped: an expression whose text starts with an integer or an identifier is read back as more qubits" % (pf["name"], ty),
+                             "Delay{qubits: [0], frame_names: [], duration: 1+2} prints `DELAY 0 1+2`, which does not parse; likewise a duration `theta[0]` or `pi`")
+    except RuntimeError:
+        res.undecided.append("K8|ungrouped-expression-after-qubit-list (no syn facts)")
     # R4
     for name, const in (("to_quil", 0), ("to_quil_or_debug", 1)):
         fs = [f for f in db.fns if f.path == "quil_rs::quil::Quil::" + name]
